@@ -909,7 +909,7 @@ func (n *RegexNode) canBeMadeAtomic(subsequent *RegexNode, iterateNullableSubseq
 				(subsequent.IsOneFamily() && subsequent.M > 0 && n.Ch != subsequent.Ch) ||
 				(subsequent.IsNotoneFamily() && subsequent.M > 0 && n.Ch == subsequent.Ch) ||
 				(subsequent.IsSetFamily() && subsequent.M > 0 && !subsequent.Set.CharIn(n.Ch)) ||
-				(subsequent.T == NtMulti && n.Ch != subsequent.Str[0]) ||
+				(subsequent.T == NtMulti && n.Ch != subsequent.firstMatchedCharOfMulti()) ||
 				(subsequent.T == NtEnd) ||
 				(subsequent.T == NtEndZ && n.Ch != '\n') ||
 				(subsequent.T == NtEol && n.Ch != '\n') {
@@ -932,7 +932,7 @@ func (n *RegexNode) canBeMadeAtomic(subsequent *RegexNode, iterateNullableSubseq
 		} else if n.T == NtNotoneloop || (n.T == NtNotonelazy && allowLazy) {
 			if (subsequent.T == NtOne && n.Ch == subsequent.Ch) ||
 				(subsequent.IsOneFamily() && subsequent.M > 0 && n.Ch == subsequent.Ch) ||
-				(subsequent.T == NtMulti && n.Ch == subsequent.Str[0]) ||
+				(subsequent.T == NtMulti && n.Ch == subsequent.firstMatchedCharOfMulti()) ||
 				(subsequent.T == NtEnd) {
 				return true
 			}
@@ -948,7 +948,7 @@ func (n *RegexNode) canBeMadeAtomic(subsequent *RegexNode, iterateNullableSubseq
 				(subsequent.T == NtSet && !n.Set.MayOverlap(subsequent.Set)) ||
 				(subsequent.IsOneloopFamily() && subsequent.M > 0 && !n.Set.CharIn(subsequent.Ch)) ||
 				(subsequent.IsSetloopFamily() && subsequent.M > 0 && !n.Set.MayOverlap(subsequent.Set)) ||
-				(subsequent.T == NtMulti && !n.Set.CharIn(subsequent.Str[0])) ||
+				(subsequent.T == NtMulti && !n.Set.CharIn(subsequent.firstMatchedCharOfMulti())) ||
 				(subsequent.T == NtEnd) ||
 				(subsequent.T == NtEndZ && !n.Set.CharIn('\n')) ||
 				(subsequent.T == NtEol && !n.Set.CharIn('\n')) {
@@ -2361,6 +2361,15 @@ func (n *RegexNode) FindStartingLiteralNode(allowZeroWidth bool) *RegexNode {
 
 		return nil
 	}
+}
+
+// Gets the character of a Multi that is matched first: its first character,
+// or its last one when the node is matched right-to-left (e.g. in a lookbehind).
+func (n *RegexNode) firstMatchedCharOfMulti() rune {
+	if n.Options&RightToLeft != 0 {
+		return n.Str[len(n.Str)-1]
+	}
+	return n.Str[0]
 }
 
 // Gets the character that begins a One or Multi.
